@@ -88,6 +88,8 @@ def main_c01(tier, seed):
             nviol += 1
             if nviol <= 3:
                 rep.violation("SupervisedOPF.fit result is not an optimum-path forest: " + msg, it.desc(), key="fit")
+    import large
+    nviol += large.sup_large(rep, rng, tier, {"forest"})
     rep.extra["oracle_violations"] = nviol
     rep.samples = [it.desc() for it in insts[:2]]
     rep.rule = ("training sets generated from (a) random/lattice feature rows under a metric from a pool of 19, (b) pre-computed symmetric "
@@ -151,6 +153,8 @@ def main_c02(tier, seed):
             nviol += 1
             if nviol <= 3:
                 rep.violation("prototype selection: " + msg, it.desc(), key="prototypes")
+    import large
+    nviol += large.sup_large(rep, rng, tier, {"prototypes"})
     rep.extra["oracle_violations"] = nviol
     rep.samples = [it.desc() for it in insts[:2]]
     rep.rule = "as C01; every 4th instance has pairwise distinct weights (uniqueness clause); non-trivial = n >= 3"
@@ -213,6 +217,8 @@ def main_c03(tier, seed):
                         d["same_object_previously_fitted_and_queried_on"] = it.history.desc()
                     rep.violation("prediction is not an exhaustive minimiser: " + msg, d, key="predict")
                 break
+    import large
+    nviol += large.sup_large(rep, rng, tier, {"predict_big_batch"})
     rep.extra["oracle_violations"] = nviol
     rep.samples = [it.desc() for _, it in insts[:2]]
     rep.rule = "fitted models as in C01 (+ semi-supervised every 5th), 1-6 queries each: copies of training rows, midpoints, far points, random; non-trivial = n >= 3"
@@ -270,6 +276,8 @@ def main_c15(tier, seed):
             nviol += 1
             if nviol <= 3:
                 rep.violation("SemiSupervisedOPF.fit: " + msg, it.desc(), key="semi_fit:label_overwritten" if "field label" in msg else "semi_fit")
+    import large
+    nviol += large.sup_large(rep, rng, tier, {"semi"})
     rep.extra["oracle_violations"] = nviol
     rep.samples = [it.desc() for it in insts[:2]]
     rep.rule = "labeled sets as in C01 plus 0,1,2,3,5 unlabeled samples (a third of the cases have an empty unlabeled set); non-trivial = n_l+n_u >= 3"
